@@ -519,7 +519,7 @@ Theo::MacroApplicationResult Theo::apply_macros(
                                      return false;
                                    if (p1.second.length > p2.second.length)
                                      return true;
-                                   return p2.second.length > p1.second.length;
+                                   return false;
                                  });
       if (it != detected_macros.end()) {
         changed = true;
